@@ -72,6 +72,13 @@ Script ==
             SvcMsg,
             [t |-> "new", c |-> 1, ver |-> V1],
             MsgEv(1, [k |-> "CallFunction", serial |-> 0, svc |-> 2, fn |-> 0, hv |-> FALSE, ver |-> 0, val |-> 1]) >>
+    [] ScriptSel = "pend2" ->    \* connection 0 owns object 101 with services 201 (cookie 2) and 202 (cookie 3); connection 1 has a call pending on 201
+         << [t |-> "new", c |-> 0, ver |-> V0],
+            MsgEv(0, [k |-> "CreateObject", serial |-> 0, uuid |-> 101]),
+            MsgEv(0, [k |-> "CreateService", serial |-> 0, obj |-> 1, uuid |-> 201, ver |-> 1]),
+            MsgEv(0, [k |-> "CreateService", serial |-> 0, obj |-> 1, uuid |-> 202, ver |-> 1]),
+            [t |-> "new", c |-> 1, ver |-> V1],
+            MsgEv(1, [k |-> "CallFunction", serial |-> 0, svc |-> 2, fn |-> 0, hv |-> FALSE, ver |-> 0, val |-> 1]) >>
     [] ScriptSel = "lstf" ->     \* connection 1 owns object 101 (cookie 1); connection 0 owns a listener (cookie 2) with an any-object filter
          << [t |-> "new", c |-> 0, ver |-> V0],
             [t |-> "new", c |-> 1, ver |-> V1],
